@@ -259,7 +259,8 @@ func runC16(cfg *config) *Report {
 	}
 	// a file with one long record (an image of several kilobytes): buffer sizes just above that record, none
 	// of them a round number - any buffer that can hold the longest record must do
-	for tries, done := 0, 0; tries < 40 && done < 1+nFiles/4; tries++ {
+	// (the second such file carries a record beyond 64 KiB, bufio's default token limit: thresholds in record size)
+	for tries, done := 0, 0; tries < 40 && done < 2+nFiles/4; tries++ {
 		f, err := genFile(r, genOpts{maxCL: 1, maxBundles: 1, maxItems: 2, mutateP: 10, kind: 1})
 		if err != nil {
 			continue
@@ -275,7 +276,7 @@ func runC16(cfg *config) *Report {
 		if iv == nil {
 			continue
 		}
-		img := make([]byte, 5000+r.Intn(9000))
+		img := make([]byte, 5000+r.Intn(9000)+(done%2)*(62000+r.Intn(9000)))
 		for i := range img {
 			img[i] = "ABCXYZ0189!$%*-_+/="[r.Intn(19)]
 		}
